@@ -36,7 +36,7 @@ def km_machine(case, cap, thr=None):
 def data_arg(case):
     if case.get("dask"):
         return sut.dask_rows(case["X"], case["chunks"])
-    return case["X"]
+    return sut.present(case["X"], case.get("how", "plain"))
 
 
 def g_traj(draw):
@@ -44,6 +44,12 @@ def g_traj(draw):
     c = gen.kmeans_data(draw, max_rows=40 if gen.big() else 24, slow=slow)
     c["init"] = gen.kmeans_init(draw, c["X"], c["k"], c["scale"], corner=slow)
     c["K"] = gen.integer(draw, 1, 10 if slow else 6)
+    c["how"] = gen.presentation(draw)
+    if c["how"] == "int":
+        if c["scale"] < 1:
+            c["how"] = "plain"
+        else:
+            c["X"] = gen.integral(c["X"])
     c["dask"] = gen.boolean(draw)
     c["chunks"] = gen.composition(draw, c["X"].shape[0], max_parts=6)
     return c
